@@ -34,7 +34,7 @@ def jobs(tier):
 def extra_ops(spec, leaf):
     """assign the sibling's typed containers to A; mutate configurations held in A's lists"""
     lspec = W.catalogue()[leaf][0]
-    ops = []
+    ops = [["render", "json"], ["render", "xml"]]
     typed = (lspec["k"] == "List" and lspec.get("item")) or (lspec["k"] == "Dict" and (lspec.get("key") or lspec.get("val")))
     if typed:
         for p, f in W.leaf_paths(spec):
